@@ -177,9 +177,15 @@ impl Property for P {
             indents: false,
             crlf: true,
         };
-        (gen::any_text(Mix::FULL, tier), gen::optspec(og))
-            .prop_map(|(text, spec)| Case { text, spec })
-            .boxed()
+        let normal = (gen::any_text(Mix::FULL, tier), gen::optspec(og.clone()))
+            .prop_map(|(text, spec)| Case { text, spec });
+        let scaled = (gen::scaled_text_and_width(Mix::FULL, 1200), gen::optspec(og)).prop_map(
+            |((text, w), mut spec)| {
+                spec.width = w;
+                Case { text, spec }
+            },
+        );
+        prop_oneof![80 => normal, 1 => scaled].boxed()
     }
     fn check(c: &Case, m: Mode) -> Outcome {
         check(c, m)
